@@ -54,7 +54,7 @@ def rule_fk(ctx):
     ebts, fi = element_bus_tuples(ctx)
     n = 0
     for t, c, fk in schema.foreign_keys():
-        if fk != "bus.index":
+        if fk.split(".")[0] != "bus":   # 'bus.index'; trafo.lv_bus spells it 'bus'
             continue
         if t == "measurement":
             continue  # measurements are re-linked through element / side by their own blocks
@@ -247,6 +247,94 @@ def run(ctx):
     rule_resindex(ctx)
     rule_cascade(ctx)
     rule_type_table(ctx)
+    rule_remap_mask(ctx)
+
+
+def rule_remap_mask(ctx):
+    """rows whose reference is rewritten by reindex_elements are chosen by the reference itself (and its type code) only"""
+    R = "REMAP-MASK"
+    ctx.rule(R, "in reindex_elements every rewrite of a referencing column (switch.element, measurement.element, *_cost.element, "
+                "trafo*.id_characteristic_table, group.element_index, line_geodata index) selects its rows from the reference column, "
+                "the type-code column and group.reference_column only: a row that holds an old index must be rewritten whatever "
+                "its other columns say, otherwise it keeps pointing at the old (or at another element's new) index")
+    schema = facts.schema_of(ctx.repo)
+    fi = ctx.repo.func(f"{DM}:reindex_elements")
+    fn = fi.node
+    defs = {}
+    loops = {}
+    for n in ast.walk(fn):
+        if isinstance(n, ast.Assign) and len(n.targets) == 1 and isinstance(n.targets[0], ast.Name):
+            defs.setdefault(n.targets[0].id, []).append(n.value)
+        if isinstance(n, ast.For) and isinstance(n.target, ast.Name):
+            loops.setdefault(n.target.id, []).append(n.iter)
+
+    def closure(expr, depth=0, seen=None):
+        seen = seen if seen is not None else set()
+        out = [expr]
+        for nm in {x.id for x in ast.walk(expr) if isinstance(x, ast.Name)}:
+            if nm in seen or depth > 3:
+                continue
+            seen.add(nm)
+            for v in defs.get(nm, []) + loops.get(nm, []):
+                out += closure(v, depth + 1, seen)
+        return out
+
+    def tables_of(node):
+        """net.T / net["T"] / net[var] (var a loop variable over literal names)"""
+        if isinstance(node, ast.Attribute) and isinstance(node.value, ast.Name) and node.value.id == "net":
+            return [node.attr]
+        if isinstance(node, ast.Subscript) and isinstance(node.value, ast.Name) and node.value.id == "net":
+            v = fold(node.slice)
+            if isinstance(v, str):
+                return [v]
+            if isinstance(node.slice, ast.Name):
+                out = []
+                for it in loops.get(node.slice.id, []):
+                    lv = fold(it)
+                    if isinstance(lv, (list, tuple)):
+                        out += [x for x in lv if isinstance(x, str)]
+                return out
+        return []
+
+    ALWAYS = {"et", "element_type", "reference_column"}
+    n = 0
+    for st in ast.walk(fn):
+        if not isinstance(st, ast.Assign) or not isinstance(st.targets[0], ast.Subscript):
+            continue
+        tg = st.targets[0]
+        sel = col = None
+        tabs = []
+        if isinstance(tg.value, ast.Attribute) and tg.value.attr in ("loc", "iat") and isinstance(tg.slice, ast.Tuple) \
+                and len(tg.slice.elts) == 2:
+            tabs = tables_of(tg.value.value)
+            sel = tg.slice.elts[0]
+            c = tg.slice.elts[1]
+            col = fold(c)
+            if not isinstance(col, str):
+                m = [x.value for x in ast.walk(c) if isinstance(x, ast.Constant) and isinstance(x.value, str)]
+                col = m[0] if m else None
+        if not tabs or sel is None or col is None:
+            continue
+        tabs = [t for t in tabs if schema.input_columns(t)]
+        if not tabs:
+            continue
+        known = set().union(*[schema.input_columns(t) for t in tabs])
+        read = set()
+        for e in closure(sel):
+            for x in ast.walk(e):
+                if isinstance(x, ast.Attribute) and x.attr in known:
+                    read.add(x.attr)
+                elif isinstance(x, ast.Constant) and isinstance(x.value, str) and x.value in known:
+                    read.add(x.value)
+        extra = sorted(read - ALWAYS - {col})
+        n += 1
+        ctx.ob(R, f"{DM}::reindex_elements::{'/'.join(tabs)}.{col}", not extra,
+               f"rows of {'/'.join(tabs)}.{col} to rewrite are selected from {sorted(read) or ['<index>']}" if not extra else
+               f"the rows of {'/'.join(tabs)}.{col} that are rewritten also depend on {extra}: rows holding an old index but "
+               f"excluded by that column keep a stale reference", fi.loc(st))
+    if n < 4:
+        ctx.fail(f"REMAP-MASK: only {n} masked reference rewrites found in reindex_elements (confirmed: measurement, switch, "
+                 "line_geodata, cost, group)")
 
 
 def rule_type_table(ctx):
@@ -275,6 +363,12 @@ def variants(repo):
         Variant("trafo drop removes switches by code prefix", "pandapower/toolbox/grid_modification.py", in_function("drop_trafos", replace_once('(net["switch"]["et"] == et)]', '(net["switch"]["et"].str.startswith(et))]')), "ET-EXACT"),
         Variant("switch code from the first letter of the table", "pandapower/toolbox/data_modification.py", replace_once('switch_et = {"line": "l", "trafo": "t", "trafo3w": "t3"}[element_type]', "switch_et = element_type[0]"), "ET-EXACT"),
         Variant("trafo3w measurements filtered by the trafo index", "pandapower/toolbox/grid_modification.py", in_function("select_subnet", replace_once("(net.measurement.element.isin(p2.trafo3w.index))", "(net.measurement.element.isin(p2.trafo.index))")), "TYPE-TABLE"),
+        V("characteristic ids remapped for flagged transformers only", dm, replace_once(
+            '            net["trafo"]["id_characteristic_table"] = (\n                net["trafo"]["id_characteristic_table"].map(lookup))\n',
+            '            uses = net["trafo"]["tap_dependency_table"].fillna(False).astype(bool)\n            net["trafo"].loc[uses, "id_characteristic_table"] = (\n                net["trafo"].loc[uses, "id_characteristic_table"].map(lookup))\n'), "REMAP-MASK"),
+        V("switch links of closed switches only", dm, replace_once("affected = net.switch[(net.switch.et == switch_et) &", "affected = net.switch[net.switch.closed & (net.switch.et == switch_et) &"), "REMAP-MASK"),
+        V("twin: measurement mask split in two steps", dm, replace_once("    affected = net.measurement[(net.measurement.element_type == element_type) &\n                               (net.measurement.element.isin(old_indices))]\n",
+            "    m_type = net.measurement.element_type == element_type\n    affected = net.measurement[m_type & (net.measurement.element.isin(old_indices))]\n"), None),
         V("t3 code lost", dm, replace_once('{"line": "l", "trafo": "t", "trafo3w": "t3"}[element_type]', 'element_type[0]'), "switch.et=t3"),
         V("trafo3w switches skipped", dm, replace_once('    if element_type in ["line", "trafo", "trafo3w"]:\n        switch_et', '    if element_type in ["line", "trafo"]:\n        switch_et'), "switch.et=t3"),
         V("measurement restricted again", dm, replace_once('    affected = net.measurement[(net.measurement.element_type == element_type) &\n                               (net.measurement.element.isin(old_indices))]\n    if len(affected):\n        net.measurement.loc[affected.index, "element"] = get_indices(affected.element, lookup)\n',
